@@ -96,6 +96,85 @@ def judge(stream: list[dict], batch_size: int, time_buffer: int, uri: str, clean
     return "held", None, info
 
 
+def judge_two_phase(stream: list[dict], batch_size: int, uri: str, split_seed: str
+                    ) -> tuple[str, dict | None, dict]:
+    """Two unique-graph evaluations on one database file with late-arriving spans in between:
+    run 1 sees a parent-closed part of every trace, run 2 ingests the rest (which changes the
+    shape of traces run 1 has already hashed).  Run 2's answer is judged against the model of
+    the FULL store (window = the spans ingested in run 2, as the data holder defines it)."""
+    info: dict = {}
+    rng = random.Random(split_seed)
+    by_id = {s["event_id"]: s for s in stream}
+    first: list[dict] = []
+    late: list[dict] = []
+    kept: set[str] = set()
+    for s in sorted(stream, key=lambda x: (x["job_id"], x["start_timestamp"])):
+        par = s["parent_event_id"]
+        if par is None or (par in kept and rng.random() < 0.6):
+            first.append(s)
+            kept.add(s["event_id"])
+        else:
+            late.append(s)
+    if not late or not first:
+        return "skip:no late span", None, info
+    rng.shuffle(first)
+    rng.shuffle(late)
+    _ = by_id
+    h1 = h2 = None
+    try:
+        h1 = store.new_holder(uri, batch_size, 0)
+        store.ingest(h1, first)
+        try:
+            sel1 = h1.find_unique_graphs()
+        finally:
+            store.forget_temp_table()
+        h1.engine.dispose()
+        h1 = None
+        w1 = model_selection(first, store.window_of(first, 0))
+        info["run1_shapes"] = sum(len(v) for v in w1.values())
+        h2 = store.new_holder(uri, batch_size, 0)
+        store.ingest(h2, late)
+        try:
+            selected = h2.find_unique_graphs()
+        finally:
+            store.forget_temp_table()
+    except Exception as exc:
+        return f"violated:two-phase:exception:{type(exc).__name__}", {"exc": repr(exc)[:300]}, info
+    finally:
+        for h in (h1, h2):
+            if h is not None:
+                h.engine.dispose()
+    want = model_selection(first + late, store.window_of(late, 0))
+    info["shapes"] = sum(len(v) for v in want.values())
+    info["late_spans"] = len(late)
+    ident = {}
+    for name, shapes in want.items():
+        for sh, ids in shapes.items():
+            for i in ids:
+                ident[i] = (name, sh)
+    info["traces_whose_shape_changed"] = sum(
+        1 for name, shapes in w1.items() for sh, ids in shapes.items() for i in ids
+        if i in ident and ident[i][1] != sh)
+    for name, ids in selected.items():
+        seen: dict = {}
+        for i in ids:
+            if i not in ident or ident[i][0] != name:
+                return "violated:two-phase:selected-trace-not-a-candidate", {"name": name, "id": i}, info
+            if ident[i][1] in seen:
+                return "violated:two-phase:two-representatives-of-one-shape", {
+                    "name": name, "ids": [seen[ident[i][1]], i]}, info
+            seen[ident[i][1]] = i
+    for name, shapes in want.items():
+        got = {ident[i][1] for i in selected.get(name, set())}
+        if set(shapes) - got:
+            miss = next(iter(set(shapes) - got))
+            return "violated:two-phase:shape-without-representative", {
+                "name": name, "traces_of_missing_shape": sorted(shapes[miss])[:4],
+                "selected": sorted(selected.get(name, set()))[:8]}, info
+    _ = sel1
+    return "held", None, info
+
+
 def build_store(rng: random.Random, mode: str) -> tuple[list[dict], dict]:
     """Returns (stream of span dicts, meta)."""
     names = rng.sample(["wf", "wf2", "w f 3"], rng.randint(1, 3))
@@ -171,6 +250,21 @@ def run_chunk(case: dict) -> dict:
                 fails.append({"symptom": v[9:], "detail": d, "stream": stream, "batch_size": b,
                               "time_buffer": tb, "clean_first": mode == "hostile-cleaned",
                               "meta": meta})
+        if idx % 3 == 0 and mode != "hostile-cleaned":
+            path = os.path.join(wd, f"c09-2p-{case['_idx']}-{idx}.sqlite")
+            b2 = rng.choice([1, 2, 3, 1000])
+            split_seed = f"{case['rng_seed']}-{idx}"
+            v2, d2, info2 = judge_two_phase(stream, b2, "sqlite:///" + path, split_seed)
+            if os.path.exists(path):
+                os.remove(path)
+            n += 1
+            bump("two_phase:" + (v2 if v2.startswith("skip") else v2.split(":")[0]))
+            bump("two_phase_late_spans", info2.get("late_spans", 0))
+            bump("two_phase_traces_whose_shape_changed", info2.get("traces_whose_shape_changed", 0))
+            if v2.startswith("violated") and len(fails) < 4:
+                fails.append({"symptom": v2[9:], "detail": d2, "stream": stream, "batch_size": b2,
+                              "time_buffer": 0, "clean_first": False,
+                              "meta": dict(meta, two_phase=True, split_seed=split_seed)})
         if not samples and mode == "small-exhaustive":
             samples.append({"traces": meta["traces"], "order": meta["order"], "time_buffer": tb,
                             "spans": [[s["job_id"], s["job_name"], s["event_type"],
@@ -187,7 +281,9 @@ def main(tier: str, seed: int) -> int:
              "(dangling / mixed-name / out-of-window traces) cleaned first; each shape copied "
              "1-3 times with permuted siblings under 1-3 workflow names; every store ingested "
              "trace-wise, interleaved, reversed or shuffled and evaluated with batch sizes "
-             "{1,2,3,1000} and time buffers {0,1,5,10,20} min. distinct = distinct (store, "
+             "{1,2,3,1000} and time buffers {0,1,5,10,20} min; every third store is also evaluated "
+             "twice on one database file with late-arriving spans in between (the second "
+             "answer must describe the full store). distinct = distinct (store, "
              "batch size, buffer); all non-trivial")
     chk.assumptions = [
         "model: AHU canonical shape (type, sorted child shapes) per trace and root workflow name",
@@ -222,10 +318,19 @@ def main(tier: str, seed: int) -> int:
     chk.distinct = {str(i) for i in range(distinct)}
     if chk.extra.get("cases_with_repeated_shape", 0) == 0:
         chk.note_inconclusive("no store contained two traces of one shape")
+    if chk.extra.get("two_phase_traces_whose_shape_changed", 0) == 0:
+        chk.note_inconclusive("two-phase drive: no trace changed its shape between the runs")
     return chk.finish()
 
 
 def run_replay(case: dict) -> dict:
+    if case.get("meta", {}).get("two_phase"):
+        path = os.path.join(core.work_dir(), "c09-replay.sqlite")
+        v, d, info = judge_two_phase(case["stream"], case["batch_size"], "sqlite:///" + path,
+                                     case["meta"]["split_seed"])
+        if os.path.exists(path):
+            os.remove(path)
+        return {"status": "ok", "verdict": v, "detail": d}
     v, d, info = judge(case["stream"], case["batch_size"], case["time_buffer"],
                        "sqlite:///:memory:", case.get("clean_first", False))
     return {"status": "ok", "verdict": v, "detail": d}
